@@ -1,5 +1,6 @@
 import CkbVerif.Driver.Util
 import CkbVerif.Model.Indexer
+import CkbVerif.Lemmas.IndexerWF
 
 /-! Line-protocol driver for C18 (protocol: see harness/hnode/src/c18.rs). `ckbmodel C18`. -/
 namespace CkbVerif.Driver.C18
@@ -167,6 +168,15 @@ def step (st : St) (ts : List String) : St × String :=
     | some num, some hash, some txs =>
       let s := append st.keep st.interval st.store ⟨num, hash, txs⟩
       ({ st with store := s }, showTip s)
+    | _, _, _ => (st, "bad-op")
+  | "wf" :: num :: hash :: txs =>
+    -- the theorems' well-formedness hypotheses (their decidable forms, `Lemmas/IndexerWF.lean`)
+    -- evaluated on the CURRENT store and the block that is about to be appended
+    match parseNat? num, parseNat? hash, txs.mapM parseTx? with
+    | some num, some hash, some txs =>
+      let b : Block := ⟨num, hash, txs⟩
+      let bit (x : Bool) : String := if x then "1" else "0"
+      (st, s!"wf a={bit (wfAppend2B st.store b)} f={bit (freshB st.store b)} k={bit (freshB2 st.store b)} d={bit (hdrDisjointB st.store b)} r={bit (retentionB st.store b st.keep)}")
     | _, _, _ => (st, "bad-op")
   | ["rollback"] =>
     let s := rollback st.store
